@@ -251,6 +251,15 @@ func coordOption(c *CCase) *coordinator.Option {
 
 // runCoordImpl runs the real coordinator once on the scripted case
 func runCoordImpl(c *CCase) (obs CObs) {
+	o, _ := runCoordImpl2(c, false)
+	return o
+}
+
+// runCoordImpl2 runs the real coordinator on the scripted case and, when `again` is set, a second
+// time on the same Coordinator object against the same scripted reports: the coordinator is
+// long-lived in a deployment, and a cycle is a function of what the shards report in it - so the
+// second observation has to be an outcome of the model for the same input as well
+func runCoordImpl2(c *CCase, again bool) (obs CObs, obs2 *CObs) {
 	obs = CObs{Scales: []int64{}, Reqs: make([][]CReq, len(c.Probes))}
 	for i := range obs.Reqs {
 		obs.Reqs[i] = []CReq{}
@@ -277,7 +286,24 @@ func runCoordImpl(c *CCase) (obs CObs) {
 		}()
 		_ = co.VerifRunOnce()
 	}()
-	return obs
+	if again && !obs.Crashed {
+		o2 := CObs{Scales: []int64{}, Reqs: make([][]CReq, len(c.Probes))}
+		for i := range o2.Reqs {
+			o2.Reqs[i] = []CReq{}
+		}
+		mgr.obs = &o2
+		mgr.calls = 0 // the script (which ChangeScale call fails) starts again with the cycle
+		func() {
+			defer func() {
+				if r := recover(); r != nil {
+					o2.Crashed = true
+				}
+			}()
+			_ = co.VerifRunOnce()
+		}()
+		obs2 = &o2
+	}
+	return obs, obs2
 }
 
 // ---- line encoding (must match Kvass/Driver/Coord.lean) ----
@@ -634,18 +660,29 @@ func runCoord(a Args) *Result {
 	for _, c := range cases {
 		outs := map[string]bool{}
 		for k := 0; k < runs; k++ {
-			o := runCoordImpl(c)
-			line := encCoord(0, c, &o)
-			if outs[line] {
-				continue
+			o1, o2 := runCoordImpl2(c, true)
+			both := []CObs{o1}
+			if o2 != nil {
+				both = append(both, *o2)
+				res.count("second_cycle_on_same_coordinator")
 			}
-			outs[line] = true
-			if seen[line] {
-				continue
+			for bi := range both {
+				o := both[bi]
+				line := encCoord(0, c, &o)
+				if outs[line] {
+					continue
+				}
+				outs[line] = true
+				if seen[line] {
+					continue
+				}
+				seen[line] = true
+				if bi == 1 {
+					res.count("second_cycle_differs_from_first")
+				}
+				items = append(items, item{c, o})
+				lines = append(lines, encCoord(len(items)-1, c, &o))
 			}
-			seen[line] = true
-			items = append(items, item{c, o})
-			lines = append(lines, encCoord(len(items)-1, c, &o))
 		}
 		res.count(fmt.Sprintf("outcomes_per_case_%d", len(outs)))
 		res.count(fmt.Sprintf("shards_%d", len(c.Probes)))
